@@ -34,7 +34,7 @@ macro_rules! __roll_finish {
             let __o: $OC = unsafe { __buf.assume_init() };
             $crate::proto::toks_iter(__o.titer())
         } else {
-            let $out = None;
+            let $out: Option<<$OC as Vec1<$U>>::UninitRefMut<'_>> = None;
             let __res: Option<$OC> = $call;
             let __o: $OC = __res.expect("returned path gave None");
             $crate::proto::toks_iter(__o.titer())
@@ -117,3 +117,55 @@ macro_rules! roll2_dispatch {
         }
     }};
 }
+
+/// the null-aware single-series entry points: `Some(call)` if `$f` names one of them.
+/// (arms of merged properties are appended here: one place for every cross-cutting runner)
+#[macro_export]
+macro_rules! roll1_valid_call {
+    ($f:expr, $view:expr, $OC:ty, $U:ty, $out:expr, $w:expr, $mp:expr, $r:expr) => {
+        match $f {
+            "ts_vsum" => Some($view.ts_vsum_to::<$OC, $U>($w, $mp, $out)),
+            "ts_vmean" => Some($view.ts_vmean_to::<$OC, $U>($w, $mp, $out)),
+            "ts_vewm" => Some($view.ts_vewm_to::<$OC, $U>($w, $mp, $out)),
+            "ts_vwma" => Some($view.ts_vwma_to::<$OC, $U>($w, $mp, $out)),
+            "ts_vstd" => Some($view.ts_vstd_to::<$OC, $U>($w, $mp, $out)),
+            "ts_vvar" => Some($view.ts_vvar_to::<$OC, $U>($w, $mp, $out)),
+            "ts_vskew" => Some($view.ts_vskew_to::<$OC, $U>($w, $mp, $out)),
+            "ts_vkurt" => Some($view.ts_vkurt_to::<$OC, $U>($w, $mp, $out)),
+            // ROLL1-VALID-APPEND
+            _ => None,
+        }
+    };
+}
+pub const ROLL1_VALID: &[&str] = &["ts_vsum", "ts_vmean", "ts_vewm", "ts_vwma", "ts_vstd", "ts_vvar", "ts_vskew", "ts_vkurt"];
+
+/// the plain single-series entry points (T: Number)
+#[macro_export]
+macro_rules! roll1_plain_call {
+    ($f:expr, $view:expr, $OC:ty, $U:ty, $out:expr, $w:expr, $mp:expr, $r:expr) => {
+        match $f {
+            "ts_sum" => Some($view.ts_sum_to::<$OC, $U>($w, $mp, $out)),
+            "ts_mean" => Some($view.ts_mean_to::<$OC, $U>($w, $mp, $out)),
+            "ts_ewm" => Some($view.ts_ewm_to::<$OC, $U>($w, $mp, $out)),
+            "ts_wma" => Some($view.ts_wma_to::<$OC, $U>($w, $mp, $out)),
+            "ts_std" => Some($view.ts_std_to::<$OC, $U>($w, $mp, $out)),
+            "ts_var" => Some($view.ts_var_to::<$OC, $U>($w, $mp, $out)),
+            "ts_skew" => Some($view.ts_skew_to::<$OC, $U>($w, $mp, $out)),
+            "ts_kurt" => Some($view.ts_kurt_to::<$OC, $U>($w, $mp, $out)),
+            _ => None,
+        }
+    };
+}
+pub const ROLL1_PLAIN: &[&str] = &["ts_sum", "ts_mean", "ts_ewm", "ts_wma", "ts_std", "ts_var", "ts_skew", "ts_kurt"];
+
+/// the two-series entry points
+#[macro_export]
+macro_rules! roll2_call {
+    ($f:expr, $view:expr, $view2:expr, $OC:ty, $U:ty, $out:expr, $w:expr, $mp:expr, $r:expr) => {
+        match $f {
+            // ROLL2-APPEND
+            _ => { let _ = (&$view, &$view2, $w, $mp, $out); None::<Option<$OC>> },
+        }
+    };
+}
+pub const ROLL2: &[&str] = &[];
